@@ -45,6 +45,7 @@ CO_OBJ *CODictFind(CO_DICT *cod, uint32_t key)
     while (start <= end) {
         center = start + ((end - start) / 2);
         obj    = &(cod->Root[center]);
+        CO_VERIF_GHOST(dict_find_body)
         if (CO_GET_DEV(obj->Key) == pattern) {
             result = obj;
             break;
